@@ -378,8 +378,12 @@ def t_scipy(T):
             fv = [(i, vals[i]) for i in fixed_idx]
             bounds, do_grad = eng.obj("bounds"), eng.obj("do_grad")
             opts = {"maxiter": eng.obj("maxiter"), "tolerance": eng.obj("tolerance")}
-            box.update(o=o, x0=list(x0), vals=vals, bounds=bounds, do_grad=do_grad, opts=dict(opts), func=func, minimizer=minimizer)
-            return eng.call_function(f, [o, minimizer, func, x0], {"do_grad": do_grad, "bounds": bounds, "fixed_vals": fv, "options": opts}, force_inline=True)
+            box.update(o=o, x0=list(x0), vals=vals, bounds=bounds, do_grad=do_grad, opts=dict(opts), func=func, minimizer=minimizer, settings=dict(o.attrs))
+            out = eng.call_function(f, [o, minimizer, func, x0], {"do_grad": do_grad, "bounds": bounds, "fixed_vals": fv, "options": opts}, force_inline=True)
+            # history: a later call without per-call options on the same optimizer object
+            box["n_first"] = len(eng.path.calls)
+            eng.call_function(f, [o, minimizer, func, [z3.Real(f"y0_{i}") for i in range(3)]], {"do_grad": do_grad, "bounds": bounds, "fixed_vals": [], "options": {}}, force_inline=True)
+            return out
         results = eng.explore(run)
         T.absorb(eng, results)
         for k, r in enumerate(results):
@@ -388,10 +392,20 @@ def t_scipy(T):
                 T.fail(f"{key}#no-raise{sfx}", str(r.exc_name), kind="raises")
                 continue
             mc = [c for c in r.path.calls if isinstance(c.target, tuple) and c.target[0] == "opaque" and c.target[1].eq(box["minimizer"])]
-            if len(mc) != 1:
-                T.fail(f"{key}#fwd.minimizer-once{sfx}", f"{len(mc)} calls", kind="forwarding")
+            if len(mc) != 2:
+                T.fail(f"{key}#fwd.minimizer-once{sfx}", f"{len(mc)} calls in two _minimize calls", kind="forwarding")
                 continue
-            c = mc[0]
+            c, c2 = mc
+            o = box["o"]
+            same = set(o.attrs) == set(box["settings"])
+            if not same:
+                T.fail(f"{key}#frame.optimizer-settings-unchanged-by-a-call{sfx}", f"attributes {sorted(set(o.attrs) ^ set(box['settings']))} appear / disappear", kind="frame")
+            else:
+                T.ob_path(eng, f"{key}#frame.optimizer-settings-unchanged-by-a-call{sfx}", r,
+                          z3.And(*[_zb(eng.veq(o.attrs[a], v)) for a, v in box["settings"].items()]), kind="frame")
+            T.ob_path(eng, f"{key}#history.later-call-without-options-uses-the-constructor-settings{sfx}", r,
+                      z3.And(_zb(eng.veq(c2.kwargs.get("tol"), box["settings"].get("tolerance"))),
+                             _zb(eng.veq(c2.kwargs.get("options", {}).get("maxiter"), box["settings"].get("maxiter")))), kind="frame")
             want_x0 = [box["vals"][i] if i in fixed_idx else box["x0"][i] for i in range(3)]
             T.ob_path(eng, f"{key}#fwd.objective-and-start-values-with-fixed-values-inserted{sfx}", r,
                       z3.And(_zb(eng.veq(c.args[0], box["func"])), _zb(eng.veq(list(c.args[1]), want_x0))), kind="forwarding")
@@ -444,7 +458,7 @@ def t_minuit(T):
                 init = [z3.Real(f"x0_{i}") for i in range(3)]
                 vals = {i: z3.Real(f"fv{i}") for i in fixed_idx}
                 bounds, names = eng.obj("bounds"), eng.obj("par_names")
-                box.update(init=list(init), vals=vals, bounds=bounds, names=names, func=func)
+                box.update(init=list(init), vals=vals, bounds=bounds, names=names, func=func, o=o, settings=dict(o.attrs))
                 return eng.call_function(f, [o, func, init, bounds], {"fixed_vals": [(i, vals[i]) for i in fixed_idx], "do_grad": do_grad, "par_names": names}, force_inline=True)
             results = eng.explore(run)
             T.absorb(eng, results)
@@ -453,6 +467,12 @@ def t_minuit(T):
                 if r.kind != "return":
                     T.fail(f"{key}#no-raise{sfx}", str(r.exc_name), kind="raises")
                     continue
+                o = box["o"]
+                if set(o.attrs) != set(box["settings"]):
+                    T.fail(f"{key}#frame.optimizer-settings-unchanged-by-a-call{sfx}", f"attributes {sorted(set(o.attrs) ^ set(box['settings']))} appear / disappear", kind="frame")
+                else:
+                    T.ob_path(eng, f"{key}#frame.optimizer-settings-unchanged-by-a-call{sfx}", r,
+                              z3.And(*[_zb(eng.veq(o.attrs[a], v)) for a, v in box["settings"].items()]), kind="frame")
                 mc = calls_to(r.path, "ext:iminuit.Minuit")
                 if len(mc) != 1:
                     T.fail(f"{key}#fwd.Minuit-once{sfx}", f"{len(mc)}", kind="forwarding")
@@ -580,6 +600,8 @@ def replay(r):
         return _replay_mle()
     if "OptimizerMixin.minimize" in r["name"]:
         return _replay_minimize()
+    if "scipy_optimizer._minimize" in r["name"]:
+        return _replay_scipy()
     if "npars" not in meta:
         return None
     import numpy as np
@@ -651,6 +673,14 @@ def _replay_mle():
         mle.fit("DATA", Pdf(), [1.0, 2.0, 3.0], [(0, 5)] * 3, [False, True, True])
         if rec.get("fixed_vals") != [(1, 2.0), (2, 3.0)]:
             bad["fit fixed_vals"] = rec.get("fixed_vals")
+        rec.clear()
+        mle.fit("DATA", Pdf(), [1.0, 2.0, 3.0], [(0, 5)] * 3, [False, False, False])
+        if rec.get("fixed_vals") != []:
+            bad["explicit all-False mask (releases a parameter the model fixes)"] = rec.get("fixed_vals")
+        rec.clear()
+        mle.fixed_poi_fit(7.0, "DATA", Pdf(), [1.0, 2.0, 3.0], [(0, 9)] * 3, [False, False, False])
+        if rec.get("fixed_vals") != [(1, 7.0)]:
+            bad["fixed_poi_fit with an explicit all-False mask"] = rec.get("fixed_vals")
         try:
             mle.fit("DATA", Pdf(), [1.0, 20.0, 3.0], [(0, 5)] * 3, [False] * 3)
             bad["validation"] = "initial value outside its bounds accepted"
@@ -658,6 +688,35 @@ def _replay_mle():
             pass
     finally:
         mle.get_backend = saved
+    return {"reproduced": bool(bad), "disagreements": bad}
+
+
+def _replay_scipy():
+    """the real scipy_optimizer._minimize with a recording minimizer: forwarding, and no per-call option survives the call"""
+    import pyhf
+    from pyhf.optimize.opt_scipy import scipy_optimizer
+    pyhf.set_backend("numpy")
+    rec = []
+
+    def minimizer(func, x0, **kw):
+        rec.append(dict(func=func, x0=list(x0), **kw))
+        return "RESULT"
+    bad = {}
+    opt = scipy_optimizer()
+
+    def settings(o):
+        names = [n for c in type(o).__mro__ for n in getattr(c, "__slots__", ())] + list(getattr(o, "__dict__", {}))
+        return {n: getattr(o, n) for n in names if hasattr(o, n)}
+    before = settings(opt)
+    f = lambda p: 0.0
+    opt._minimize(minimizer, f, [1.0, 2.0, 3.0], do_grad=False, bounds=[(0, 5)] * 3, fixed_vals=[(1, 2.5)], options={"tolerance": 1e-2, "maxiter": 7})
+    if not rec or rec[0].get("tol") != 1e-2 or rec[0]["options"].get("maxiter") != 7 or rec[0]["x0"] != [1.0, 2.5, 3.0] or rec[0].get("method") != "SLSQP":
+        bad["forwarding"] = {k: repr(v) for k, v in (rec[0] if rec else {}).items() if k != "func"}
+    if settings(opt) != before:
+        bad["optimizer settings changed by a call"] = {k: (before.get(k), v) for k, v in settings(opt).items() if before.get(k) != v}
+    opt._minimize(minimizer, f, [1.0, 2.0, 3.0], do_grad=False, bounds=[(0, 5)] * 3, fixed_vals=[], options={})
+    if len(rec) == 2 and (rec[1].get("tol") != before.get("tolerance") or rec[1]["options"].get("maxiter") != before.get("maxiter")):
+        bad["later call without options"] = {"tol": rec[1].get("tol"), "maxiter": rec[1]["options"].get("maxiter"), "constructor": (before.get("tolerance"), before.get("maxiter"))}
     return {"reproduced": bool(bad), "disagreements": bad}
 
 
